@@ -16,7 +16,7 @@ from .. import common, drv
 PID = 'C17'
 
 NAMES = {'c': ['a.c', 'sub/b.c', 'x.y.c', 'dir.d/noext.c'], 'chdr': ['h.h', 'sub/i.h'], 'cppout': ['p.i'], 'qbe': ['q.qbe', 'sub/r.qbe'], 'asm': ['s.s'], 'asmpp': ['t.S'],
-         'obj': ['o.o', 'lib.a', 'noext', 'sub/weird.xyz', 'c']}
+         'obj': ['o.o', 'lib.a', 'noext', 'sub/weird.xyz', 'c', 'libfoo.so', 'x.cc', 'page.html', 'conf.in', 'run.sh', 'y.Sx', 'z.qbex', 'q.hh', 'sub/w.ii', 'v.C', 'k.H', 'dot.']}
 MODES = [[], ['-c'], ['-E'], ['-S'], ['-emit-qbe'], ['-M'], ['-MM']]
 
 
